@@ -366,6 +366,9 @@ func checkLagrange(c *Ctx, r *Run) {
 				}
 			}
 			follow(lk, 0)
+			if op == nil && onlyComparedWithNil(lk) {
+				return // a presence test (`lagrange[j] == nil`): the coefficient is not used here
+			}
 			cnt++
 			key := fmt.Sprintf("%s|coefficient[%s] #%d", name, strings.Join(paramFields(fn, lk.Index), "+"), cnt)
 			if op == nil {
@@ -741,4 +744,23 @@ func checkOddBranchNegations(c *Ctx, r *Run, fn *ssa.Function, pointLabel string
 func dependsOnLabel(fn *ssa.Function, v ssa.Value, label string) bool {
 	d := newDep(fn, nil)
 	return d.has(v, label)
+}
+
+// onlyComparedWithNil: the value's only uses are comparisons with nil.
+func onlyComparedWithNil(v ssa.Value) bool {
+	if v.Referrers() == nil || len(*v.Referrers()) == 0 {
+		return false
+	}
+	for _, ref := range *v.Referrers() {
+		switch x := ref.(type) {
+		case *ssa.DebugRef:
+		case *ssa.BinOp:
+			if !(x.Op == token.EQL || x.Op == token.NEQ) || !(isNilConst(x.X) || isNilConst(x.Y)) {
+				return false
+			}
+		default:
+			return false
+		}
+	}
+	return true
 }
